@@ -7,16 +7,24 @@
       the *column* axis of the eigenvectors, sorted ascending; eigen_sym33_unit scales the input by 1/max-norm,
       rescales the eigenvalues by the same max-norm and normalises each column by its own length;
       exact algebra of the closed-form solver (rules/C12_eigen.py);
-  O3  derivative rules: every custom_jvp function has a registered rule whose primal output is computed by
-      calling the decorated function (so higher derivatives attach) and whose tangent helper receives the same
-      scalar function as the primal; the degenerate fallback of the divided difference uses the derivative;
+  O3  derivative rules (rules/C12_jvp.py): every custom_jvp function has a registered rule whose primal output is computed by
+      calling the decorated function (so higher derivatives attach); the scalar function the rule hands to the tangent helper is
+      the one the primal applies to the eigenvalues; the helper decomposes the matrix primal and rotates its tangent; the
+      degenerate fallback of the divided difference uses the derivative;
       the relative-difference formulas equal (f(a)-f(b))/(a-b): proved for the square root (algebraic atoms),
       screened for counterexamples at sample points for exp / log / power (refutation only).
   O4  Denman-Beavers product form: loop invariant on symbolic 1x1 data and the scaling switch.
 
-Every obligation is decided on *values* obtained by interpreting the functions symbolically (rules/C12_sym.py: helper functions are
-followed, keyword / positional calls, lambdas / nested defs, temporaries, renamed locals and reordered independent statements do not matter;
-conditions are symbolic, selections are registered atoms resolved per situation), never on the text of a statement.
+Every obligation is decided on *values* obtained by interpreting the functions symbolically (rules/C12_sym.py), never on the text of a
+statement, on names of locals / parameters / private helpers, or on the position of a parameter.  The interpreter follows helper functions
+(code split into stages or moved to module level), keyword / positional / default / *args / **kwargs calls, lambdas, nested defs,
+functools.partial, NamedTuple / dataclass / plain-class records, dictionaries (dispatch tables, carries), comprehensions, zip / enumerate /
+map, static python loops, vmap, array-valued selections and element-wise conditions; conditions are symbolic and selections are registered
+atoms resolved per situation.  Roles are found on values: the tangent helper is the function on the interpreter's stack between a rule
+and the eigen decomposition whose arguments carry one callable of one scalar and one of two; the loop carry of the Denman-Beavers
+iteration is any pytree whose two matrix leaves start as A; the approximant of cos(acos(x)/3) is the function the solver calls that has
+its values.  REFUTED is issued only for a derived contradiction (an exact value, or a numeric witness of fully evaluated formulas);
+code whose shape the interpretation does not read is UNDECIDED.
 
 Not decided: accuracy over forty orders of magnitude, derivative accuracy near degeneracy, Denman-Beavers and
 Pade convergence in LinAlg (numerical).
@@ -33,16 +41,18 @@ from optilint.expr import Rat, Poly, simplify
 from optilint.tensoreval import (Dual, Arr, PyFunc, Closure, Unknown, EvalError, Raised, matmul, _A, rat_const, rat_is_zero)
 from . import tensorid
 from . import C12_eigen
-from .C12_sym import SymInterp, generic_matrix
+from . import C12_jvp
+from .C12_sym import SymInterp, generic_matrix, tree_flatten, is_callable_value, callable_scope, Partial, subst
 
 LEVEL = "other"
 RULE_TEXT = "obligations = (helper x polynomial identity) + (eigen-solver value x role) + (custom_jvp function x wiring clause) + relative-difference identities"
 EXPLANATION = ("Polynomial identities of the closed-form 3x3 helpers on a generic symbolic matrix; the eigen solver, its unit-norm wrapper, "
-               "symmetric_matrix_function, the custom_jvp rules, the tangent helper and the Denman-Beavers loop body are interpreted symbolically "
+               "symmetric_matrix_function, the custom_jvp rules (as registered values), the tangent helper (found on the interpreter's call stack, "
+               "argument roles read by value) and the Denman-Beavers loop body (any pytree carry) are interpreted symbolically "
                "(conditions symbolic, one run per situation) and the obligations are decided on the resulting exact values: index spaces and the "
                "sorting permutation, the algebra of the closed-form roots, custom_jvp protocol and primal/tangent scalar-function agreement, "
                "Daleckii-Krein assembly for distinct / double / triple eigenvalues; algebraic proof (sqrt) or sample-point refutation screen "
-               "(exp/log/pow) of the divided-difference formulas. Floating-point accuracy claims of the property are not decided.")
+               "(exp/log/pow) of the divided-difference formulas each rule hands to the helper. Floating-point accuracy claims of the property are not decided.")
 
 TM = "optimism.TensorMath"
 NONUNIT = f"{TM}:eigen_sym33_non_unit"
@@ -200,14 +210,16 @@ def spectral_form(ctx, rule):
     smf = ctx.need(SMF)
     un = ctx.need(UNIT)
     I = SymInterp(ctx.repo)
-    A, _ = generic_matrix("a")
+    A, _an = generic_matrix("a")
     V, _ = generic_matrix("v")
     lam = Arr(_atoms("l", 3), (3,))
     calls = []
 
+    make = C12_eigen.pair_maker(ctx, UNIT)
+
     def eig(it, args, kw):
         calls.append(_bind(un, args, kw))
-        return (lam, V)
+        return make(lam, V)
     I.special[un.qualname] = eig
     I.special[NONUNIT] = eig
 
@@ -227,9 +239,15 @@ def spectral_form(ctx, rule):
     if not calls or not isinstance(out, Arr) or out.shape != (3, 3) or any(not isinstance(x, Dual) for x in out.data):
         ctx.undecided(rule, smf, None, construct=construct, detail="the eigen decomposition (eigen_sym33_unit) of the argument is not what the function is built from")
         return
-    ok = _same(out, want) and _same(calls[0][0], A)
+    arg = calls[0][0]
+    symA = A.zip(A.T(), lambda x, y: (x + y) * Dual(Fraction(1, 2)))
+    on_arg = _same(arg, A) or _same(arg, symA)          # for the symmetric arguments of the property both are the argument
+    if not on_arg and not (isinstance(arg, Arr) and arg.shape == (3, 3) and all(isinstance(x, Dual) and x.a.atoms() <= set(_an) for x in arg.data)):
+        ctx.undecided(rule, smf, None, construct=construct, detail="what the eigen solver is applied to could not be read")
+        return
+    ok = _same(out, want) and on_arg
     why = "it is V.T @ diag(f(lam)) @ V, which treats the ROWS of V as eigenvectors" if _same(out, other) else \
-        ("the eigen solver is not applied to the argument" if not _same(calls[0][0], A) else "it is not V @ diag(f(lam)) @ V.T")
+        ("the eigen solver is not applied to the argument" if not on_arg else "it is not V @ diag(f(lam)) @ V.T")
     ctx.decide(rule, ok, smf, None, construct=construct, detail="V @ diag(f(lam)) @ V.T for generic V, lam and opaque f",
                bad_detail=f"symmetric_matrix_function: with eigenvectors as columns the result must be V @ diag(f(lam)) @ V.T; {why}")
 
@@ -241,15 +259,19 @@ def unit_wrapper(ctx, rule):
     returned column k = W[:,k] / |W[:,k]|."""
     un = ctx.need(UNIT)
     nu = ctx.need(NONUNIT)
-    T, tn = generic_matrix("t")
+    # the property quantifies over symmetric tensors: a generic *symmetric* input (six atoms)
+    tn = [f"t{i}{j}" for i in range(3) for j in range(i, 3)]
+    T = Arr([Dual(_A.atom(f"t{min(i, j)}{max(i, j)}")) for i in range(3) for j in range(3)], (3, 3))
     W, wn = generic_matrix("w")
     s = Arr(_atoms("s", 3), (3,))
     I = SymInterp(ctx.repo, inputs=tn)
     calls = []
 
+    make = C12_eigen.pair_maker(ctx, NONUNIT)
+
     def solver(it, args, kw):
         calls.append(_bind(nu, args, kw))
-        return (s, W)
+        return make(s, W)
     I.special[nu.qualname] = solver
     try:
         out = I.run(un, [T])
@@ -258,7 +280,7 @@ def unit_wrapper(ctx, rule):
     und = lambda c, why: ctx.undecided(rule, un, None, construct=c, detail=why)
     generic_pt = {}
     for k, a in enumerate(tn):
-        generic_pt[a] = [0.7, -1.3, 0.4, 2.1, -0.6, 1.7, -0.9, 0.35, 1.1][k]
+        generic_pt[a] = [0.7, -1.3, 0.4, 2.1, -0.6, 1.7][k]
     for k, a in enumerate(wn):
         generic_pt[a] = [0.3, 1.9, -0.8, -1.1, 0.45, 0.6, 1.4, -0.2, 0.95][k]
     for k in range(3):
@@ -268,18 +290,20 @@ def unit_wrapper(ctx, rule):
 
     def situation(r, pt):
         try:
-            return I.specialise(r, pt)
-        except (KeyError, ZeroDivisionError, EvalError):
+            return I.specialise(r, pt, piecewise=True)
+        except (KeyError, ZeroDivisionError, EvalError, ValueError, OverflowError):
             return None
-    # ---- the solver call
+    # ---- the solver call (another number of calls / another kind of argument is an idiom this rule does not read, not a defect)
     arg = calls[0][0] if len(calls) == 1 else None
     ok_call = isinstance(arg, Arr) and arg.shape == (3, 3) and all(isinstance(x, Dual) for x in arg.data)
-    ctx.decide(rule, ok_call if calls else None, un, None, construct="unit:solver-called-on-the-scaled-tensor", detail="(values, vectors) = eigen_sym33_non_unit(scaled tensor), once",
+    ctx.decide(rule, True if ok_call else None, un, None, construct="unit:solver-called-on-the-scaled-tensor", detail="(values, vectors) = eigen_sym33_non_unit(scaled tensor), once",
                bad_detail=f"eigen_sym33_unit calls the non-unit solver {len(calls)} times / not on a 3x3 tensor")
     kappa = None
     if ok_call:
         kappa = simplify(_A.norm(arg.data[0].a / T.data[0].a))
         ok_scaled = all(_A.equal(a.a, kappa * t.a) for a, t in zip(arg.data, T.data))
+        if not ok_scaled and not all(I.reach([a.a])[0] & set(tn) for a in arg.data):
+            ok_scaled = None           # entries that do not depend on the input at all: not a tensor this rule can read
         ctx.decide(rule, ok_scaled, un, None, construct="unit:scaledTensor", detail="input scaled by one scalar factor",
                    bad_detail="eigen_sym33_unit: the tensor handed to the solver is not a scalar multiple of the input")
         if not ok_scaled:
@@ -310,14 +334,15 @@ def unit_wrapper(ctx, rule):
                    bad_detail=f"eigen_sym33_unit: for a non-zero input the tensor is scaled by `{k_gen!r}`, which is not the reciprocal of a norm of the input: "
                               f"tensors of extreme magnitude are not brought to unit size")
         guarded = None
-        if N is not None:
-            guarded = k_zero is not None and rat_const(k_zero) is not None
+        if N is not None and k_zero is not None:
+            guarded = rat_const(k_zero) is not None
         ctx.decide(rule, guarded, un, None, construct="unit:cmaxInv", detail="inverse scale guarded against zero",
                    bad_detail=f"eigen_sym33_unit: for the zero tensor the scale factor is `{k_zero!r}`: the reciprocal of the norm is not guarded against zero")
     # ---- returned pair
-    ok_ret = isinstance(out, tuple) and len(out) == 2 and isinstance(out[0], Arr) and out[0].shape == (3,) and isinstance(out[1], Arr) and out[1].shape == (3, 3) \
+    out = C12_eigen.as_pair(out)           # a tuple, a list or a two-field record
+    ok_ret = out is not None and isinstance(out[0], Arr) and out[0].shape == (3,) and isinstance(out[1], Arr) and out[1].shape == (3, 3) \
         and all(isinstance(x, Dual) for x in list(out[0].data) + list(out[1].data))
-    swapped = isinstance(out, tuple) and len(out) == 2 and isinstance(out[0], Arr) and out[0].shape == (3, 3) and isinstance(out[1], Arr) and out[1].shape == (3,)
+    swapped = out is not None and isinstance(out[0], Arr) and out[0].shape == (3, 3) and isinstance(out[1], Arr) and out[1].shape == (3,)
     ctx.decide(rule, True if ok_ret else (False if swapped else None), un, None, construct="unit:returns-(values,vectors)", detail="(evals, evecs)",
                bad_detail="eigen_sym33_unit returns (vectors, values) instead of (values, vectors)")
     if not ok_ret:
@@ -338,13 +363,15 @@ def unit_wrapper(ctx, rule):
         ctx.decide(rule, ok, un, None, construct="unit:eigenvalues-rescaled-by-the-same-factor", detail="evals = N * (eigenvalues of the scaled tensor)",
                    bad_detail=f"eigenvalues are not rescaled by the norm the input was divided by (eigenvalue 0 is `{vals[0]!r}`)")
     # ---- eigenvectors: column k of the result is a column of W divided by its own length
-    src_col, own = [], []
+    def parallel(col, w):
+        return all(_A.equal(col[a] * w[b].a, col[b] * w[a].a) for a in range(3) for b in range(a + 1, 3)) and not all(rat_is_zero(c) for c in col)
+    src_col, own, from_row = [], [], []
     for k in range(3):
         col = [vecs[i * 3 + k] for i in range(3)]
         hit = None
         for j in range(3):
             wj = [W.data[i * 3 + j] for i in range(3)]
-            if all(_A.equal(col[a] * wj[b].a, col[b] * wj[a].a) for a in range(3) for b in range(a + 1, 3)) and not all(rat_is_zero(c) for c in col):
+            if parallel(col, wj):
                 hit = j
                 break
         src_col.append(hit)
@@ -353,10 +380,17 @@ def unit_wrapper(ctx, rule):
             own.append(all(_A.equal(col[i] * length.a, wj[i].a) for i in range(3)))
         else:
             own.append(False)
-    okc = all(h is not None for h in src_col) and all(own)
+            from_row.append(any(parallel(col, [W.data[j * 3 + i] for i in range(3)]) for j in range(3)))
+    # a column that is parallel to a ROW of the solver's matrix is positively wrong; a column that is parallel to neither is an idiom
+    # (re-orthogonalisation, ...) that this rule does not read
+    if all(h is not None for h in src_col):
+        okc = all(own)
+    else:
+        okc = False if any(from_row) else None
     ctx.decide(rule, okc, un, None, construct="unit:columns-normalised-by-own-length", detail="evec_k = evecs[:,k]/|evecs[:,k]|",
                bad_detail="eigenvector columns are not each divided by their own length" +
-                          (" (a column of the result is not parallel to a column of the solver's matrix: rows and columns mixed up?)" if any(h is None for h in src_col) else ""))
+                          (" (a column of the result is a ROW of the solver's matrix: rows and columns mixed up)" if any(from_row) else
+                           (" (a column of the result is not parallel to a column of the solver's matrix)" if any(h is None for h in src_col) else "")))
     if all(h is not None for h in src_col):
         ctx.decide(rule, src_col == [0, 1, 2], un, None, construct="unit:normalised-columns-restacked-in-order", detail="column k of the result comes from column k of the solver",
                    bad_detail=f"normalised eigenvectors are re-stacked in the order {src_col} (column k must stay column k: the eigenvalues keep their order)")
@@ -402,7 +436,11 @@ def trig_table(ctx):
     """The rational approximant of cos(acos(x)/3) is a table of literals: evaluate it exactly (by interpretation, float literals read as
     written) at x = k/1000 and check the defining identity 4c^3 - 3c = x on the branch c >= sqrt(3)/2 (the largest root of the depressed cubic)."""
     rule = "O2/T7-trigonometric-root-table"
-    f = ctx.need(C12_eigen.TRIG)
+    f = C12_eigen.trig_function(ctx, NONUNIT)
+    if f is None:
+        raise Incomplete(f"anchor {C12_eigen.TRIG} not found in the source tree, and no function called by the eigen solver has its role "
+                         f"(a rational approximant c(x) of cos(acos(x)/3): c(0) = sqrt(3)/2, c(1) = 1)")
+    ctx.touch(f)
     construct = "cos(acos(x)/3):triple-angle-identity"
     I = SymInterp(ctx.repo)
     I.tolerant = False
@@ -443,240 +481,53 @@ def trig_table(ctx):
 # ------------------------------------------------------------------------------------------------ O3: custom_jvp wiring
 
 def _custom_jvp_functions(ctx, mname):
-    m = ctx.need_module(mname)
-    out = []
-    for c in m.scope.children:
-        if c.kind != "function":
-            continue
-        for d in c.node.decorator_list:
-            vals = ctx.repo.resolve(d, m.scope)
-            if any(isinstance(v, ExtVal) and v.name.endswith("custom_jvp") for v in vals):
-                out.append(c)
-    return m, out
-
-
-def _jvp_rules(m):
-    """decorated function name -> scope of its registered rule (`@f.defjvp` or a module-level `f.defjvp(rule)`)"""
-    rules = {}
-    by_name = {c.name: c for c in m.scope.children if c.kind == "function"}
-    for c in m.scope.children:
-        if c.kind == "function":
-            for d in c.node.decorator_list:
-                if isinstance(d, ast.Attribute) and d.attr == "defjvp" and isinstance(d.value, ast.Name):
-                    rules[d.value.id] = c
-    for st in m.tree.body:
-        if isinstance(st, ast.Expr) and isinstance(st.value, ast.Call) and isinstance(st.value.func, ast.Attribute) and st.value.func.attr == "defjvp" \
-                and isinstance(st.value.func.value, ast.Name) and len(st.value.args) == 1 and isinstance(st.value.args[0], ast.Name) \
-                and st.value.args[0].id in by_name:
-            rules[st.value.func.value.id] = by_name[st.value.args[0].id]
-    return rules
-
-
-def _tangent_helper(ctx):
-    """the shared tangent helper: by its name, else by its role -- the one repository function with four parameters that the rules of at
-    least two custom_jvp functions of TensorMath call"""
-    h = ctx.repo.find(HELPER)
-    if h is not None:
-        return h
-    m, fns = _custom_jvp_functions(ctx, TM)
-    rules = _jvp_rules(m)
-    count = {}
-    for f in fns:
-        r = rules.get(f.name)
-        if r is None:
-            continue
-        seen = set()
-        for c in ast.walk(r.node):
-            if isinstance(c, ast.Call):
-                for v in ctx.repo.resolve(c.func, r):
-                    if isinstance(v, FuncVal) and v.scope.kind == "function" and len(v.scope.params()) == 4 and v.scope.qualname not in seen:
-                        seen.add(v.scope.qualname)
-                        count.setdefault(v.scope.qualname, [0, v.scope])[0] += 1
-    best = [sc for (n_, sc) in count.values() if n_ >= 2]
-    return best[0] if len(best) == 1 else None
+    """(module, scopes of the functions decorated with / wrapped by custom_jvp) -- also used by rules/C10.py"""
+    m, named = C12_jvp.custom_jvp_named(ctx, mname)
+    return m, [sc for _, sc in named]
 
 
 def jvp_wiring(ctx, rule):
-    """Each rule is interpreted on symbolic (primals, tangents) with the decorated function, symmetric_matrix_function and the tangent
-    helper replaced by recording stand-ins: the first component of the result must be the value of decorated_function(*primals); the scalar
-    function handed to the tangent helper must agree (as a function of a fresh symbol) with the one the primal hands to
-    symmetric_matrix_function, and the helper must receive the matrix primal and its tangent."""
-    n = 0
-    helper = _tangent_helper(ctx)
-    smf = ctx.repo.find(SMF)
-    for mname in (TM, "optimism.Math"):
-        m, fns = _custom_jvp_functions(ctx, mname)
-        rules = _jvp_rules(m)
-        for f in fns:
-            n += 1
-            r = rules.get(f.name)
-            if r is None:
-                ctx.refuted(rule, f, None, construct=f"{f.name}:has-rule", detail=f"{f.name} is decorated with custom_jvp but no @{f.name}.defjvp rule is registered")
-                continue
-            ctx.touch(r)
-            I = SymInterp(ctx.repo)
-            np_ = len(f.params())
-            primals = tuple(_atoms(f"{f.name}_p", np_))
-            tangents = tuple(_atoms(f"{f.name}_d", np_))
-            # ---- the primal function: which scalar function goes to symmetric_matrix_function?
-            smf_calls = []
-            if smf is not None:
-                I.special[smf.qualname] = lambda it, a, k, rec=smf_calls: (rec.append(_bind(smf, a, k)), Dual(_A.atom("smf_out")))[1]
-            prim_err = None
-            try:
-                I.run(f, list(primals))
-            except _ERR as ex:
-                prim_err = str(ex)
-            # ---- the rule
-            prim_calls, helper_calls = [], []
-            I.special[f.qualname] = lambda it, a, k, rec=prim_calls, f=f: (rec.append(_bind(f, a, k)), Dual(_A.atom(f"{f.name}_out")))[1]
-            if helper is not None:
-                I.special[helper.qualname] = lambda it, a, k, rec=helper_calls: (rec.append(_bind(helper, a, k)), Dual(_A.atom("tangent_out")))[1]
-            out = err = None
-            try:
-                out = I.run(r, [primals, tangents])
-            except _ERR as ex:
-                err = str(ex)
-            okp = None
-            if err is None:
-                okp = isinstance(out, tuple) and len(out) == 2 and isinstance(out[0], Dual) and _A.equal(out[0].a, _A.atom(f"{f.name}_out")) \
-                    and any(_same(tuple(c), primals) for c in prim_calls)
-            ctx.decide(rule, okp, r, None, construct=f"{f.name}:primal-out-calls-decorated-function",
-                       detail=f"primal output = {f.name}(*primals)",
-                       bad_detail=(f"the JVP rule of {f.name} does not compute its primal output by calling {f.name} on the primals: higher-order derivatives would bypass the custom rule"
-                                   if err is None else f"cannot interpret the rule: {err}"))
-            # ---- scalar function agreement (spectral functions)
-            if smf_calls and prim_err is None:
-                construct = f"{f.name}:tangent-uses-the-primal-scalar-function"
-                if len(smf_calls) != 1 or len(helper_calls) != 1 or err is not None:
-                    ctx.decide(rule, None if err is not None or not helper_calls else False, r, None, construct=construct,
-                               detail=f"primal applies symmetric_matrix_function {len(smf_calls)}x, rule calls the tangent helper {len(helper_calls)}x ({err or 'no error'})")
-                    continue
-                (A_p, f_p), (f_t, _rd, prim_t, tan_t) = smf_calls[0][:2], (helper_calls[0] + [None] * 4)[:4]
-                x = Dual(_A.atom("x"))
-                I.positive.add("x")
-                try:
-                    v_p, v_t = I.num(I.call(f_p, [x], {})), I.num(I.call(f_t, [x], {}))
-                    same_f = _same(v_p, v_t)
-                    shown = f"primal applies x -> {v_p.a!r}, tangent rule differentiates x -> {v_t.a!r}"
-                except _ERR as ex:
-                    same_f, shown = None, f"cannot apply the scalar functions to a symbol: {ex}"
-                same_args = isinstance(prim_t, (tuple, list)) and len(prim_t) == 1 and _same(prim_t[0], A_p) and _same(A_p, primals[0]) \
-                    and isinstance(tan_t, (tuple, list)) and len(tan_t) == 1 and _same(tan_t[0], tangents[0])
-                ok = None if same_f is None else (same_f and same_args)
-                ctx.decide(rule, ok, r, None, construct=construct, detail=f"both use the same scalar function ({shown.split(',')[0]})",
-                           bad_detail=(f"{f.name}: {shown}" if not same_f else
-                                       f"{f.name}: the tangent helper does not receive (matrix primal,), (its tangent,) of the decorated function"))
-    if n < 5:
-        raise Incomplete(f"{n} custom_jvp functions found (5 expected)")
-    helper_rules(ctx, rule)
-
-
-def helper_rules(ctx, rule):
-    """The shared tangent helper, interpreted on generic symbolic data: eigenvalues l0..l2 (distinct generic numbers; equal names = exactly equal
-    eigenvalues), a generic matrix V in place of the eigenvectors, a generic tangent, f(x) = x^3 with exact divided difference x^2+xy+y^2.
-    The result must be the Daleckii-Krein form V (h o (V^T sym(Cdot) V)) V^T with h_ii = f'(l_i), h_ij = divided difference (distinct) or f'
-    (equal eigenvalues).  The switch between the two must be exact equality: any condition that is still open when all eigenvalues are distinct
-    generic numbers is evaluated at nearly equal eigenvalues -- if it holds there, f' replaces the (exact) divided difference where they differ."""
-    h = _tangent_helper(ctx)
-    if h is None:
-        raise Incomplete(f"anchor {HELPER} not found in the source tree")
-    ctx.touch(h)
-    un = ctx.need(UNIT)
-    V = tensorid.generic("v")
-    Cd = tensorid.generic("c")
-    C = tensorid.generic("p")
-    cube = PyFunc("cube", lambda it, a, k: (lambda x: x * x * x)(it.num(a[0])))
-    dd = PyFunc("dd", lambda it, a, k: (lambda x, y: x * x + x * y + y * y)(it.num(a[0]), it.num(a[1])))
-    three = Dual(3)
-
-    def expected(l):
-        hh = [[None] * 3 for _ in range(3)]
-        for i_ in range(3):
-            for j_ in range(3):
-                if i_ == j_ or _A.equal(l[i_].a, l[j_].a):
-                    hh[i_][j_] = three * l[i_] * l[i_]
-                else:
-                    hh[i_][j_] = l[i_] * l[i_] + l[i_] * l[j_] + l[j_] * l[j_]
-        S = Cd.zip(Cd.T(), lambda x, y: (x + y) * Dual(Fraction(1, 2)))
-        Wm = matmul(matmul(V.T(), S), V)
-        HW = Arr([hh[i_][j_] * Wm.data[i_ * 3 + j_] for i_ in range(3) for j_ in range(3)], (3, 3))
-        return matmul(matmul(V, HW), V.T())
-    cases = [("distinct", ("l0", "l1", "l2")), ("double", ("l0", "l0", "l2")), ("triple", ("l0", "l0", "l0"))]
-    verdicts = {}
-    open_conditions = []
-    tolerance_witness = None
-    for cname, names in cases:
-        lam = [Dual(_A.atom(n)) for n in names]
-        I = SymInterp(ctx.repo)
-        I.generic = {"l0", "l1", "l2"}
-        I.special[un.qualname] = lambda interp, args, kw, lam=lam: (Arr(list(lam), (3,)), V)
-        I.special[NONUNIT] = I.special[un.qualname]
-        try:
-            out = I.run(h, [cube, dd, (C,), (Cd,)])
-            want = expected(lam)
-            if not (isinstance(out, Arr) and out.shape == (3, 3) and all(isinstance(x, Dual) for x in out.data)):
-                raise EvalError("the helper does not return a 3x3 tensor")
-            bad = [(i_, j_) for i_ in range(3) for j_ in range(3) if not _A.equal(out.data[i_ * 3 + j_].a, want.data[i_ * 3 + j_].a)]
-            opened = {c.key: c for c in I.sel_log}
-            if cname == "distinct":
-                open_conditions = list(opened.values())
-                for c in open_conditions:
-                    for pt in ({"l0": 1.0, "l1": 1.0 + 1e-9, "l2": 2.0}, {"l0": 1.0, "l1": 2.0, "l2": 2.0 + 1e-9}, {"l0": 3.0 + 1e-9, "l1": 2.0, "l2": 3.0},
-                               {"l0": 1e-9, "l1": 2e-9, "l2": 1.0}, {"l0": 1.0, "l1": 1.0 + 1e-12, "l2": 2.0}):
-                        try:
-                            if I.numeric_cond(c, pt):
-                                tolerance_witness = (c, pt)
-                                break
-                        except (KeyError, ZeroDivisionError):
-                            pass
-                    if tolerance_witness:
-                        break
-            if bad and opened and not tolerance_witness and cname == "distinct":
-                verdicts[cname] = None
-                ctx.undecided(rule, h, None, construct=f"helper:daleckii-krein-assembly:{cname}",
-                              detail=f"the tangent depends on conditions that generic distinct eigenvalues do not decide: {sorted(opened)[:2]}")
-                continue
-            verdicts[cname] = not bad
-            ctx.decide(rule, not bad, h, None, construct=f"helper:daleckii-krein-assembly:{cname}",
-                       detail=f"tangent == V (h o V^T sym(Cdot) V) V^T for generic V, Cdot and {cname} eigenvalues (f = x^3)",
-                       bad_detail=f"for {cname} eigenvalues the tangent differs from V (h o V^T sym(Cdot) V) V^T in entries {bad} "
-                                  f"(generic V, generic Cdot, f(x) = x^3 with its exact divided difference)")
-        except _ERR as ex:
-            verdicts[cname] = None
-            ctx.undecided(rule, h, None, construct=f"helper:daleckii-krein-assembly:{cname}", detail=f"cannot interpret the helper on generic data: {ex}")
-    # ---- the switch between divided difference and derivative
-    if tolerance_witness is not None:
-        c, pt = tolerance_witness
-        ok, why = False, (f"the switch condition `{c.key[:120]}` holds for the distinct eigenvalues {sorted(pt.values())}: the divided difference is replaced by f' "
-                          f"although the relative-difference formulas are exact for every non-zero gap")
-    elif verdicts.get("distinct") and verdicts.get("double") is False:
-        ok, why = False, "at exactly equal eigenvalues the divided difference does not fall back to the derivative"
-    elif verdicts.get("distinct") and verdicts.get("double") and not open_conditions:
-        ok, why = True, ""
-    else:
-        ok, why = None, "the switch between divided difference and derivative could not be read"
-    ctx.decide(rule, ok, h, None, construct="helper:degenerate-fallback-is-derivative",
-               detail="exact equality of two eigenvalues (and nothing else) selects the derivative f'(a) instead of the divided difference",
-               bad_detail=f"the divided difference does not fall back to the derivative exactly at equal eigenvalues: {why}")
+    """registration, primal output, agreement of the scalar functions of primal and rule, data flow into the tangent helper and the
+    Daleckii-Krein assembly of the helper: rules/C12_jvp.py (also used by rules/C10.py)"""
+    C12_jvp.jvp_wiring(ctx, rule)
 
 
 # ------------------------------------------------------------------------------------------------ O3: relative differences
 
 def relative_differences(ctx):
     rule = "O3/T7-relative-differences"
-    sq = ctx.need(f"{TM}:_sqrt_relative_difference")
+    # the relative difference of the square root: found by role (the two-argument callable that the rule of the spectral function whose
+    # primal scalar function is the square root hands to the tangent helper), by name when the wiring could not be read
     I = SymInterp(ctx.repo, positive={"a", "b"})
     a, b = Dual(_A.atom("a")), Dual(_A.atom("b"))
+
+    def is_sqrt(J, fp):
+        return _A.equal(fp[0].a, _A.sqrt(_A.atom("l0"))) and rat_is_zero(fp[0].b)
+    sq = fn = None
     try:
-        got = I.num(I.run(sq, [a, b]))
+        jf = C12_jvp.relative_difference_of(ctx, is_sqrt)
+    except (Incomplete,) + _ERR:
+        jf = None
+    if jf is not None:
+        fn, sq = jf.rd, (callable_scope(jf.rd) or jf.where)
+    else:
+        sq = ctx.need(f"{TM}:_sqrt_relative_difference")
+    try:
+        got = I.num(I.call(fn, [a, b], {}) if fn is not None else I.run(sq, [a, b]))
         sa, sb = _A.sqrt(a.a), _A.sqrt(b.a)
         ok = isinstance(got, Dual) and _A.equal(_A.norm(got.a * (a.a - b.a)), _A.norm(sa - sb))
         shown = repr(got.a) if isinstance(got, Dual) else repr(got)
     except _ERR as ex:
         ok, shown = None, f"cannot interpret: {ex}"
     ctx.decide(rule, ok, sq, None, construct="sqrt:(sqrt a - sqrt b)/(a-b)", detail="1/(sqrt a + sqrt b) times (a - b) equals sqrt a - sqrt b",
-               bad_detail=f"_sqrt_relative_difference(a, b) = `{shown}` is not (sqrt(a)-sqrt(b))/(a-b)")
+               bad_detail=f"the relative difference of the square root, evaluated at (a, b), is `{shown}`, not (sqrt(a)-sqrt(b))/(a-b)")
+    # every spectral function: the relative difference its rule hands to the helper against the scalar function of the rule
+    try:
+        n_role = C12_jvp.screen_relative_differences(ctx, rule)
+        ctx.notes.append(f"relative differences handed to the tangent helper: {n_role} agree with (f(a)-f(b))/(a-b) of their scalar function "
+                         f"(exactly or at well separated sample points; sampling is not a proof)")
+    except (Incomplete,) + _ERR:
+        pass
     # refutation-only screens: the interpreted formula evaluated at sample points
     screens = [("_exp_relative_difference", lambda x: math.exp(x), [(0.3, -0.2), (1.5, 1.2), (-2.0, 0.5)], {}),
                ("_relative_log_difference_no_tolerance_check", lambda x: math.log(x), [(2.0, 0.5), (1.2, 1.1), (0.3, 3.0)], {}),
@@ -710,34 +561,52 @@ def relative_differences(ctx):
 
 
 def log_taylor(ctx):
-    """_relative_log_difference_taylor(a, b) is (2/(a+b)) * sum_{k<=K} f^(2k)/(2k+1), f = (a-b)/(a+b), for some K >= 4: exact comparison of the
-    interpreted value with the truncated series."""
+    """_relative_log_difference_taylor(a, b) is (2/(a+b)) * sum_{k<=K} f^(2k)/(2k+1), f = (a-b)/(a+b), for some K >= 4.  The interpreted value
+    times (a+b) is homogeneous of degree 0; written in f alone (a = (1+f)/(1-f), b = 1) it must be a polynomial with the coefficients
+    2/(2k+1) of f^(2k) and no odd powers.  A polynomial in f with another coefficient (or of degree < 8) is refuted; a value that is not a
+    polynomial in f (another approximation) is screened at nearly equal arguments and otherwise left undecided."""
     rule = "O3/T7-relative-differences"
     sc = ctx.repo.find(f"{TM}:_relative_log_difference_taylor")
     if sc is None:
         return
     ctx.touch(sc)
     a, b = Dual(_A.atom("a")), Dual(_A.atom("b"))
-    order = "?"
+    order, ok, why = "?", None, "the value could not be read"
     try:
-        I = SymInterp(ctx.repo)
+        I = SymInterp(ctx.repo, positive={"a", "b"})
         got = I.num(I.run(sc, [a, b]))
-        if not isinstance(got, Dual):
-            raise EvalError("not a scalar")
-        fr = (a.a - b.a) / (a.a + b.a)
-        f2 = fr * fr
-        ok = False
-        series, term = Rat(Poly()), Rat(Poly.const(1))
-        for k in range(0, 13):
-            series = series + term * Rat(Poly.const(Fraction(2, 2 * k + 1)))
-            term = term * f2
-            if k >= 4 and _A.equal(got.a * (a.a + b.a), series):
-                ok, order = True, 2 * k
-                break
-    except _ERR:
-        ok = None
+        if not isinstance(got, Dual) or not got.a.atoms() <= {"a", "b"}:
+            raise EvalError("not an explicit rational function of the two arguments")
+        f = _A.atom("f")
+        one = Rat(Poly.const(1))
+        in_f = simplify(_A.norm(subst(subst(got.a * (a.a + b.a), "a", (one + f) / (one - f)), "b", one)))
+        if in_f.d.is_const() and in_f.atoms() <= {"f"}:
+            coeff = {}
+            for mono, c in in_f.n.t.items():
+                coeff[dict(mono).get("f", 0)] = c / in_f.d.const_value()
+            deg = max(coeff) if coeff else 0
+            wrong = [k for k in range(deg + 1) if coeff.get(k, 0) != (Fraction(2, k + 1) if k % 2 == 0 else 0)]
+            if wrong:
+                ok, why = False, f"the coefficient of f^{wrong[0]} is {coeff.get(wrong[0], 0)}, the series of (log a - log b)/(a - b) has {Fraction(2, wrong[0] + 1) if wrong[0] % 2 == 0 else 0}"
+            elif deg < 8:
+                ok, why = False, f"the series is truncated after f^{deg} (at least f^8 is needed for the documented 5% range)"
+            else:
+                ok, order = True, deg
+        else:
+            # another closed form: refuted only by a numeric counterexample at nearly equal arguments (where the function is used)
+            worst = 0.0
+            for (x1, x2) in ((1.0, 1.01), (2.0, 2.02), (0.5, 0.49)):
+                v = I.numeric(got.a, {"a": x1, "b": x2})
+                want = (math.log(x1) - math.log(x2)) / (x1 - x2)
+                worst = max(worst, abs(v - want) / abs(want))
+            if worst > 1e-8:
+                ok, why = False, f"relative error {worst:.2e} at arguments 1% apart"
+            else:
+                ok, why = None, "not a truncated series in f = (a-b)/(a+b); accurate at sample points (not a proof)"
+    except _ERR as ex:
+        ok, why = None, f"cannot interpret: {ex}"
     ctx.decide(rule, ok, sc, None, construct="log:taylor-series-coefficients", detail=f"(a+b) * value == sum_(k<={order}/2) 2/(2k+1) f^(2k), f=(a-b)/(a+b)",
-               bad_detail="_relative_log_difference_taylor is not a truncated series 2/(a+b) * (1 + f^2/3 + f^4/5 + ...) (at least up to f^8) of (log a - log b)/(a - b)")
+               bad_detail=f"_relative_log_difference_taylor is not a truncated series 2/(a+b) * (1 + f^2/3 + f^4/5 + ...) of (log a - log b)/(a - b): {why}")
 
 
 # ------------------------------------------------------------------------------------------------ O4: Denman-Beavers
@@ -760,33 +629,42 @@ def denman_beavers(ctx):
 
     def wl(it, args, kw):
         vals = list(args) + [kw.get(k) for k in ("cond_fun", "body_fun", "init_val")][len(args):]
-        rec["cond"], rec["body"], rec["init"] = vals[:3]
-        return tuple(Unknown("loop result") for _ in vals[2]) if isinstance(vals[2], tuple) else Unknown("loop result")
+        if len(vals) >= 3 and "body" not in rec:
+            rec["cond"], rec["body"], rec["init"] = vals[:3]
+        leaves, rebuild = tree_flatten(vals[2])
+        return rebuild([Unknown("loop result") for _ in leaves])
     I.ext_special["jax.lax.while_loop"] = wl
     try:
         I.run(sc, [Arr([a], (1, 1))])
     except _ERR:
         pass
     body, init = rec.get("body"), rec.get("init")
-    if not isinstance(body, Closure) or not isinstance(init, tuple):
-        ctx.undecided(rule, sc, None, construct="loop", detail="while_loop(cond, body, init) with a tuple carry not found by interpretation")
+    if body is None or not is_callable_value(body):
+        ctx.undecided(rule, sc, None, construct="loop", detail="while_loop(cond, body, init) not found by interpretation")
         return
-    ctx.touch(body.scope)
-    mats = [k for k, v in enumerate(init) if isinstance(v, Arr) and v.shape == (1, 1)]
+    where = callable_scope(body) or sc
+    ctx.touch(where)
+    # the carry is any python container (tuple, NamedTuple, dictionary, nested): its leaves are the slots
+    init_leaves, rebuild = tree_flatten(init)
+    mats = [k for k, v in enumerate(init_leaves) if isinstance(v, Arr) and v.shape == (1, 1)]
+    if len(mats) > 2:              # further matrices in the carry (a carried identity, ...): iterate and product are the ones that start as A
+        mats = [k for k in mats if _same(init_leaves[k], Arr([a], (1, 1)))]
     if len(mats) != 2:
-        ctx.undecided(rule, body.scope, None, construct="loop", detail=f"{len(mats)} matrix slots in the loop carry (2 expected: iterate and product)")
+        ctx.undecided(rule, where, None, construct="loop", detail=f"{len(mats)} matrix slots in the loop carry (2 expected: iterate and product)")
         return
-    scal = [k for k in range(len(init)) if k not in mats]
+    scal = [k for k in range(len(init_leaves)) if k not in mats]
 
     def step(order, hyp, X, M):
         vals = {order[0]: X, order[1]: M}
-        cr = tuple(vals[k] if k in vals else (Dual(v) if isinstance(v, int) and not isinstance(v, bool) else Dual(_A.atom(f"carry{k}")))
-                   for k, v in enumerate(init))
+        cr = rebuild([vals[k] if k in vals else (Dual(v) if isinstance(v, int) and not isinstance(v, bool) else
+                                                 (v if isinstance(v, Arr) and all(isinstance(x, Dual) and rat_const(x.a) is not None for x in v.data)
+                                                  else Dual(_A.atom(f"carry{k}"))))
+                      for k, v in enumerate(init_leaves)])
         I.hyp = dict(hyp)
         I.sel_log.clear()
-        out = I.call(body, [cr], {})
-        if not (isinstance(out, tuple) and len(out) == len(init)):
-            raise EvalError("the loop body does not return a carry of the same length")
+        out, _ = tree_flatten(I.call(body, [cr], {}))
+        if len(out) != len(init_leaves):
+            raise EvalError("the loop body does not return a carry of the same structure")
         return out
 
     def analyse(order):
@@ -817,25 +695,45 @@ def denman_beavers(ctx):
         sits, switch, plain, conds = analyse(order)
         if not any(_A.is_zero(r) for _, r in sits):
             alt = analyse(mats[::-1])       # both slots start as A: the invariant tells the iterate from the product
-            if all(_A.is_zero(r) for _, r in alt[0]):
+            if alt[0] and all(_A.is_zero(r) for _, r in alt[0]):
                 order, (sits, switch, plain, conds) = mats[::-1], alt
     except _ERR as ex:
-        ctx.undecided(rule, body.scope, None, construct="invariant-M=X^2/a[scaled]", detail=f"cannot interpret the loop body on 1x1 data: {ex}")
+        ctx.undecided(rule, where, None, construct="invariant-M=X^2/a[scaled]", detail=f"cannot interpret the loop body on 1x1 data: {ex}")
         return
+    def vanishes(res):
+        """True: identically zero; False: not zero -- exact when the residual is algebra of the symbols and square roots, else witnessed at
+        sample points; None: opaque functions in the residual and no witness"""
+        if _A.is_zero(res):
+            return True
+        atoms = I.reach([res])[0]
+        if all(t not in I.fn and t not in I.sel for t in atoms):
+            return False
+        try:
+            worst = 0.0
+            for pt in ({"a": 2.3, "x": 0.9}, {"a": 0.4, "x": 1.7}, {"a": 37.0, "x": 3.1}):
+                pt = dict(pt, **{t: 0.37 for t in atoms if t.startswith("carry")})
+                v = I.numeric(res, pt)
+                if v != v:
+                    return None
+                worst = max(worst, abs(v))
+            return False if worst > 1e-8 else None
+        except (KeyError, ZeroDivisionError, OverflowError, ValueError):
+            return None
     for k, (hyp, res) in enumerate(sits):
         lab = "unscaled" if k == plain else "scaled"
-        ctx.decide(rule, _A.is_zero(res), body.scope, None, construct=f"invariant-M=X^2/a[{lab}]", detail="one step maps (x, x^2/a) to (x', x'^2/a)",
+        ctx.decide(rule, vanishes(res), where, None, construct=f"invariant-M=X^2/a[{lab}]", detail="one step maps (x, x^2/a) to (x', x'^2/a)",
                    bad_detail=f"with the scaling {'on' if lab == 'scaled' else 'off'} one step of the Denman-Beavers loop maps (X, M = X^2/a) to a pair with "
                               f"X'^2/a - M' = {res!r}: M -> I no longer implies X^2 = A")
         if lab == "unscaled":
             s_ = Dual(_A.sqrt(a.a))
             try:
                 o2 = step(order, hyp, Arr([s_], (1, 1)), Arr([Dual(1)], (1, 1)))
-                okf = _A.equal(o2[order[0]].data[0].a, s_.a) and _A.equal(o2[order[1]].data[0].a, _A.const(1))
+                okf = vanishes(simplify(_A.norm(o2[order[0]].data[0].a - s_.a)))
+                okf = okf if okf is not True else vanishes(simplify(_A.norm(o2[order[1]].data[0].a - _A.const(1))))
                 shown = f"({o2[order[0]].data[0].a!r}, {o2[order[1]].data[0].a!r})"
             except _ERR as ex:
                 okf, shown = None, str(ex)
-            ctx.decide(rule, okf, body.scope, None, construct="fixed-point-(sqrt a, 1)", detail="(sqrt a, 1) is mapped to itself",
+            ctx.decide(rule, okf, where, None, construct="fixed-point-(sqrt a, 1)", detail="(sqrt a, 1) is mapped to itself",
                        bad_detail=f"(X, M) = (sqrt a, 1) is mapped to {shown}: the square root is not a fixed point of the iteration")
     # ---- scaling switch
     ok, shown = None, "?"
@@ -854,16 +752,123 @@ def denman_beavers(ctx):
                 ok = None
     elif switch is None and not conds:
         ok, shown = False, "no switch: the scale factor does not depend on the relative change of the iterate"
-    ctx.decide("O4/T2-scaling-switch", ok, body.scope, None, construct="scaling-on-while-far-from-convergence", detail=shown,
+    ctx.decide("O4/T2-scaling-switch", ok, where, None, construct="scaling-on-while-far-from-convergence", detail=shown,
                bad_detail=f"{shown}: the determinantal scaling must be applied while the relative change of X is at least the threshold and replaced by 1 below it; "
                           f"otherwise matrices of extreme magnitude exhaust the iteration cap (silently unconverged result) or the final quadratic phase is perturbed")
 
 
+def _round2_variants(Variant, sub, multi, T, LA, E, F, G, H, J, R1T, R1L, R2T, R2L, R3T, R3L):
+    """bolder restructurings (preserving) and breaking edits made on top of them: the roles must be found in the restructured code too"""
+    loop_registration = [
+        ("@exp_symm.defjvp\ndef _exp_symm_jvp", "def _exp_symm_jvp"),
+        ("@log_symm.defjvp\ndef _log_symm_jvp(primals, tangents):\n    primal_out = log_symm(*primals)\n"
+         "    return primal_out, _symmetric_matrix_function_jvp_helper(np.log, _log_relative_difference, primals, tangents)\n",
+         "def _log_symm_jvp(primals, tangents):\n    primal_out = log_symm(*primals)\n"
+         "    return primal_out, _symmetric_matrix_function_jvp_helper(np.log, _log_relative_difference, primals, tangents)\n\n"
+         "for _f, _r in ((exp_symm, _exp_symm_jvp), (log_symm, _log_symm_jvp)):\n    _f.defjvp(_r)\n")]
+    trig_renamed = [("def cos_of_acos_divided_by_3(x):", "def _third_angle_cosine(x):"),
+                    ("    cos_thd3 = cos_of_acos_divided_by_3(arg)", "    cos_thd3 = _third_angle_cosine(arg)")]
+    sqrt_rd_renamed = [("def _sqrt_relative_difference(lam1, lam2):", "def _root_quotient(lam1, lam2):"),
+                       ("Math.safe_sqrt, _sqrt_relative_difference, primals", "Math.safe_sqrt, _root_quotient, primals")]
+    carried_identity = [
+        ("        X, M, error, k, diff = loopData\n        g = np.where", "        X, M, error, k, diff, I = loopData\n        g = np.where"),
+        ("        I = np.identity(dim)\n", ""),
+        ("        return (X, M, error, k, diff)", "        return (X, M, error, k, diff, I)"),
+        ("    loopData0 = (X0, M0, error0, k0, diff0)", "    loopData0 = (X0, M0, error0, k0, diff0, np.identity(dim))"),
+        ("    X,_,_,k,_ = jax.lax.while_loop", "    X,_,_,k,_,_ = jax.lax.while_loop"),
+        ("        _,_,error,k,_ = loopData\n        p = np.array([k < maxIters", "        _,_,error,k,_,_ = loopData\n        p = np.array([k < maxIters")]
+    return [
+        # ---- preserving
+        Variant("round 2 / r1: NamedTuple rule records, partial (TensorMath)", T, multi(R1T), None),
+        Variant("round 2 / r1: NamedTuple loop carries (LinAlg)", LA, multi(R1L), None),
+        Variant("round 2 / r2: solver and helper split into stages (TensorMath)", T, multi(R2T), None),
+        Variant("round 2 / r2: loop closures moved to module level, partial (LinAlg)", LA, multi(R2L), None),
+        Variant("round 2 / r3: comprehensions over components (TensorMath)", T, multi(R3T), None),
+        Variant("round 2 / r3: hoisted loop invariants (LinAlg)", LA, multi(R3L), None),
+        Variant("refactoring E (rule factory, registration by call, keyword-only callables)", T, multi(E), None),
+        Variant("refactoring F (dictionary carry, step bound by a lambda, loop driver)", LA, multi(F), None),
+        Variant("refactoring G (2x2 block by a function returning a NamedTuple, array selections, np.take)", T, multi(G), None),
+        Variant("refactoring H (norm with a floor, symmetrised input, broadcast normalisation, einsum)", T, multi(H), None),
+        Variant("refactoring J (vectorised helper: meshgrid, array conditions, nested vmap; argmax pivot)", T, multi(J), None),
+        Variant("rules registered in a loop over a table", T, multi(loop_registration), None),
+        Variant("approximant of cos(acos(x)/3) renamed (found by role)", T, multi(trig_renamed), None),
+        Variant("relative difference of the square root renamed (found by role)", T, multi(sqrt_rd_renamed), None),
+        Variant("DB carry with a carried identity matrix", LA, multi(carried_identity), None),
+        Variant("sign by selecting between the negated and the plain value", T,
+                sub("    two_cos_thd3 = 2.0*cos_thd3*np.sign(rr)", "    two_cos_thd3 = np.where(rr < 0.0, -2.0*cos_thd3, 2.0*cos_thd3)"), None),
+        Variant("log series with one more term (equivalent role)", T,
+                sub("seventh2 * frac4 * frac2 + ninth2 * frac4 * frac4)", "seventh2 * frac4 * frac2 + ninth2 * frac4 * frac4 + 2.0/11.0*frac4*frac4*frac2)"), None),
+        # ---- breaking, on the restructured code
+        Variant("E + exp rule differentiates expm1", T, multi(E + [("_spectral_jvp(exp_symm, np.exp, _exp_relative_difference)", "_spectral_jvp(exp_symm, np.expm1, _exp_relative_difference)")]),
+                "O3/T5-custom-jvp-wiring"),
+        Variant("E + helper receives (tangent, primal)", T, multi(E + [("_symmetric_matrix_function_jvp_helper(A, dA, func=scalar_function", "_symmetric_matrix_function_jvp_helper(dA, A, func=scalar_function")]),
+                "O3/T5-custom-jvp-wiring"),
+        Variant("E + primal recomputed in the factory", T, multi(E + [("        value = matrix_function(*primals)", "        value = symmetric_matrix_function(A, scalar_function)")]),
+                "O3/T5-custom-jvp-wiring"),
+        Variant("E + divided difference of the wrong pair", T, multi(E + [("pairs[(min(i, j), max(i, j))]", "pairs[(min(i, j), 2)]")]), "O3/T5-custom-jvp-wiring"),
+        Variant("F + switch flipped", LA, multi(F + [('    nearly_converged = carry["diff"] < scaleTol', '    nearly_converged = carry["diff"] > scaleTol')]), "O4/T2-scaling-switch"),
+        Variant("F + product scaled once", LA, multi(F + [('    Ms = gg * carry["M"]', '    Ms = g * carry["M"]')]), "O4/T7-denman-beavers-invariant"),
+        Variant("F + inverse of the iterate", LA, multi(F + [("    N = np.linalg.inv(Ms)", "    N = np.linalg.inv(Y)")]), "O4/T7-denman-beavers-invariant"),
+        Variant("G + spherical threshold linear in the mean", T, multi(G + [("    spherical = c2 >= -1.0e-30*c1**2", "    spherical = c2 >= -1.0e-30*c1")]), "O2/T7-eigen-solver-algebra"),
+        Variant("G + shift sign can be zero", T, multi(G + [("    direction = np.where(half_gap < 0.0, -1.0, 1.0)", "    direction = np.sign(half_gap)")]), "O2/T7-eigen-solver-algebra"),
+        Variant("G + vectors stacked as rows", T, multi(G + [("np.stack([evec0, evec1, evec2]).T)", "np.stack([evec0, evec1, evec2]))")]), "O2/T9-eigen-roles"),
+        Variant("G + rows permuted", T, multi(G + [("np.take(evecs, order, axis=1)", "np.take(evecs, order, axis=0)")]), "O2/T9-eigen-roles"),
+        Variant("H + lengths of the rows", T, multi(H + [("np.sum(spectrum[1]*spectrum[1], axis=0)", "np.sum(spectrum[1]*spectrum[1], axis=1)")]), "O2/T9-eigen-roles"),
+        Variant("H + norm without the floor", T, multi(H + [("    unit_size = sym(tensor) / np.maximum(size, floor)", "    unit_size = sym(tensor) / size")]), "O2/T9-eigen-roles"),
+        Variant("H + einsum over the rows of V", T, multi(H + [("np.einsum('ik,k,jk->ij', V, func(lam), V)", "np.einsum('ki,k,kj->ij', V, func(lam), V)")]), "O2/T9-eigen-roles"),
+        Variant("J + selection swapped", T, multi(J + [("    h = np.where(repeated, slopes, quotients)", "    h = np.where(repeated, quotients, slopes)")]), "O3/T5-custom-jvp-wiring"),
+        Variant("J + switch with tolerance", T, multi(J + [("    repeated = lam_i == lam_j", "    repeated = np.isclose(lam_i, lam_j)")]), "O3/T5-custom-jvp-wiring"),
+        Variant("J + rotated the wrong way", T, multi(J + [("    return sym(V@(h*rotated)@V.T)", "    return sym(V.T@(h*rotated)@V)")]), "O3/T5-custom-jvp-wiring"),
+        Variant("r1 + log rule record with another scalar function", T, multi(R1T + [("_LOG_RULE = _ScalarFunctionRule(func=np.log,", "_LOG_RULE = _ScalarFunctionRule(func=np.log1p,")]),
+                "O3/T7-relative-differences"),
+        Variant("r1 + power rule binds another exponent in the tangent", T, multi(R1T + [("relative_difference=partial(_pow_relative_difference, m=m))", "relative_difference=partial(_pow_relative_difference, m=m - 1))")]),
+                "O3/T7-relative-differences"),
+        Variant("r1 + switch flipped (NamedTuple carry)", LA, multi(R1L + [("        g = np.where(state.diff >= scaleTol,", "        g = np.where(state.diff <= scaleTol,")]), "O4/T2-scaling-switch"),
+        Variant("r2 + stage without the derivative fallback", T, multi(R2T + [("    return np.where(x2 == x1, df(x1), relative_difference(x1, x2_safe))", "    return relative_difference(x1, x2_safe)")]),
+                "O3/T5-custom-jvp-wiring"),
+        Variant("r2 + update coefficient (module level step)", LA, multi(R2L + [("    M = 0.5 * (I + 0.5 * (M + N))", "    M = 0.5 * (I + 0.25 * (M + N))")]), "O4/T7-denman-beavers-invariant"),
+        Variant("r3 + cyclic pairs with a repeated pair", T, multi(R3T + [("    cyclic_pairs = ((0, 1), (1, 2), (2, 0))", "    cyclic_pairs = ((0, 1), (1, 2), (2, 1))")]), "O3/T5-custom-jvp-wiring"),
+        Variant("r3 + comprehension normalises by the first column", T, multi(R3T + [("evecs[:,i]/np.linalg.norm(evecs[:,i]) for i in range(3)", "evecs[:,i]/np.linalg.norm(evecs[:,0]) for i in range(3)")]),
+                "O2/T9-eigen-roles"),
+        Variant("renamed approximant with a wrong digit", T, multi(trig_renamed + [("0.603976798217196003", "0.603976798217190003")]), "O2/T7-trigonometric-root-table"),
+        Variant("renamed relative difference of the square root with a minus", T, multi(sqrt_rd_renamed + [("    return 1/(np.sqrt(lam1) + np.sqrt(lam2))", "    return 1/(np.sqrt(lam1) - np.sqrt(lam2))")]),
+                "O3/T7-relative-differences"),
+        Variant("log relative difference divided by the smaller eigenvalue", T, sub("    return (np.log1p(arg)/arg)/lams[i[1]]", "    return (np.log1p(arg)/arg)/lams[i[0]]"), "O3/T7-relative-differences"),
+        Variant("power relative difference with the wrong prefactor", T, sub("    return lam_big**(m-1)*(arg**m - 1)/(arg - 1)", "    return lam_big**(m)*(arg**m - 1)/(arg - 1)"), "O3/T7-relative-differences"),
+        Variant("exp rule hands over the relative difference of the logarithm", T,
+                sub("_symmetric_matrix_function_jvp_helper(np.exp, _exp_relative_difference, primals, tangents)", "_symmetric_matrix_function_jvp_helper(np.exp, _log_relative_difference, primals, tangents)"),
+                "O3/T7-relative-differences"),
+        Variant("largest root scaled by 3 instead of 2", T, sub("    two_cos_thd3 = 2.0*cos_thd3*np.sign(rr)", "    two_cos_thd3 = 3.0*cos_thd3*np.sign(rr)"), "O2/T7-eigen-solver-algebra"),
+        Variant("sign selected the wrong way round", T, sub("    two_cos_thd3 = 2.0*cos_thd3*np.sign(rr)", "    two_cos_thd3 = np.where(rr > 0.0, -2.0*cos_thd3, 2.0*cos_thd3)"), "O2/T7-eigen-solver-algebra"),
+    ]
+
+
 def variants(repo):
     from optilint.selftest import Variant, sub, sub_in_func, alpha_rename, reformat
-    from .C12_variants import multi, REF_A_TM, REF_B_TM, REF_B_LA, REF_C_TM, REF_C_LA, REF_D_TM
+    from .C12_variants import (multi, REF_A_TM, REF_B_TM, REF_B_LA, REF_C_TM, REF_C_LA, REF_D_TM, REF_E_TM, REF_F_LA, REF_G_TM, REF_H_TM, REF_J_TM,
+                               REF_K_TM, REF_L_TM, REF_M_TM, REF_N_TM, R2_C08R6_TM, R2_1_TM, R2_1_LA, R2_2_TM, R2_2_LA, R2_3_TM, R2_3_LA)
     T = "optimism/TensorMath.py"
-    return [
+    LA = "optimism/LinAlg.py"
+    return _round2_variants(Variant, sub, multi, T, LA, REF_E_TM, REF_F_LA, REF_G_TM, REF_H_TM, REF_J_TM,
+                            R2_1_TM, R2_1_LA, R2_2_TM, R2_2_LA, R2_3_TM, R2_3_LA) + [
+        Variant("round 2 / C08-r6: helper(func, rd, C, Cdot) split in three, partial, solver tail moved", T, multi(R2_C08R6_TM), None),
+        Variant("C08-r6 + module level fallback without the derivative", T, multi(R2_C08R6_TM + [("    return np.where(x2 == x1, df(x1), relative_difference(x1, x2_safe))", "    return relative_difference(x1, x2_safe)")]),
+                "O3/T5-custom-jvp-wiring"),
+        Variant("refactoring N (eigen solvers return a NamedTuple read by field name)", T, multi(REF_N_TM), None),
+        Variant("N + unit wrapper fills the record the wrong way round", T, multi(REF_N_TM + [("    return EigenPairs(evals, evecs)", "    return EigenPairs(evecs, evals)")]), "O2/T9-eigen-roles"),
+        Variant("N + record of the solver permutes rows", T, multi(REF_N_TM + [("    return EigenPairs(values=evals[idx], vectors=evecs[:,idx])", "    return EigenPairs(values=evals[idx], vectors=evecs[idx,:])")]),
+                "O2/T9-eigen-roles"),
+        Variant("refactoring K (rules decompose, helper receives (lam, V))", T, multi(REF_K_TM), None),
+        Variant("refactoring L (dict dispatch of scalar function and relative difference)", T, multi(REF_L_TM), None),
+        Variant("refactoring M (rule object with methods)", T, multi(REF_M_TM), None),
+        Variant("K + rule decomposes the tangent", T, multi(REF_K_TM + [("_exp_relative_difference, eigen_sym33_unit(primals[0]), tangents[0])", "_exp_relative_difference, eigen_sym33_unit(tangents[0]), primals[0])")]),
+                "O3/T5-custom-jvp-wiring"),
+        Variant("K + divided difference pair mixed up", T, multi(REF_K_TM + [("    h31 = rd(lam[2], lam[0])", "    h31 = rd(lam[2], lam[1])")]), "O3/T5-custom-jvp-wiring"),
+        Variant("L + exp rule looks up the logarithm", T, multi(REF_L_TM + [('    return primal_out, _spectral_tangent("exp", primals, tangents)', '    return primal_out, _spectral_tangent("log", primals, tangents)')]),
+                "O3/T5-custom-jvp-wiring"),
+        Variant("M + method switches with a tolerance", T, multi(REF_M_TM + [("        return np.where(x2 == x1, self.derivative()(x1), self.relative_difference(x1, x2_safe))",
+                                                                                "        return np.where(np.abs(x2 - x1) < 1e-12, self.derivative()(x1), self.relative_difference(x1, x2_safe))")]),
+                "O3/T5-custom-jvp-wiring"),
         Variant("detpIm1 misses I2", T, sub("    return trace(A) + I2(A) + det(A)", "    return trace(A) + det(A)"), "O1/T7-helper-identities"),
         Variant("inv cofactor", T, sub("invA21 = A[0, 1]*A[2, 0] - A[0, 0]*A[2, 1]", "invA21 = A[0, 1]*A[2, 0] - A[0, 0]*A[1, 2]"), "O1/T7-helper-identities"),
         Variant("det sign", T, sub_in_func("det", "- A[0, 0]*A[1, 2]*A[2, 1]", "+ A[0, 0]*A[1, 2]*A[2, 1]"), "O1/T7-helper-identities"),
